@@ -310,6 +310,15 @@ func (w *world) deliver(n *node, qc *lib.QuorumCertificate, syncing bool, how st
 	n.ctl.Syncing().Store(false)
 	n.ctl.Consensus.BlockResult = nil
 	c.Check()
+	if err != nil && strings.Contains(err.Error(), "unequal block hash") {
+		// the node executed the certified block and computed another header than the one +2/3 signed
+		switch c.Prop {
+		case "C03":
+			c.ReportFor("C03", "deterministic-execution", "certified-block-recomputed-differently", fmt.Sprintf("%s executed the +2/3 certified block of height %d (%s) and computed a different header", n.name, qc.Header.Height, how))
+		case "C07":
+			c.ReportFor("C07", "atomicity", "commit-not-reproducible-on-this-node", fmt.Sprintf("%s executed the +2/3 certified block of height %d (%s) on top of its own state and computed a different header (left-over speculative or rolled-back work)", n.name, qc.Header.Height, how))
+		}
+	}
 	if err != nil {
 		c.ReportFor("C11", "portability", "valid-certified-block-rejected-"+how, fmt.Sprintf("%s rejected the +2/3 certified block of height %d (%s): %v", n.name, qc.Header.Height, how, err))
 		return false
@@ -415,6 +424,9 @@ func (w *world) afterCommitOracles(what string) {
 		}
 		c.Check()
 		if s.height == ref.height && !bytes.Equal(s.digest, ref.digest) {
+			if c.Prop == "C07" {
+				c.ReportFor("C07", "atomicity", "state-differs-between-nodes", fmt.Sprintf("%s: %s and %s are at height %d with different state (%d vs %d keys)", what, ups[0].name, n.name, s.height, ref.nKeys, s.nKeys))
+			}
 			c.ReportFor("C03", "deterministic-execution", "state-differs-between-nodes", fmt.Sprintf("%s: %s and %s are at height %d with different state (%d vs %d keys)", what, ups[0].name, n.name, s.height, ref.nKeys, s.nKeys))
 		}
 	}
